@@ -37,19 +37,19 @@ func sweepCases(tier string, o sweepOpts) []Case {
 func init() {
 	modes["C01"] = ModeSpec{
 		Cases: func(t string) []Case { return sweepCases(t, sweepOpts{c01: true}) },
-		Rule: "every (row, atomic condition) pair of the row/condition alphabets on every layout (flush splits, partitions, compressions, rates, merges, external writer), AND/OR trees over a truth-table corpus, prefilter trees over a numeric/partition corpus; a case is non-trivial when the query returns at least one row; oracle: independent encoding/json walker (T1) + unpruned-layout differential (T2)",
+		Rule:  "every (row, atomic condition) pair of the row/condition alphabets on every layout (flush splits, partitions, compressions, rates, merges, external writer), AND/OR trees over a truth-table corpus, prefilter trees over a numeric/partition corpus; a case is non-trivial when the query returns at least one row; oracle: independent encoding/json walker (T1) + unpruned-layout differential (T2)",
 	}
 	modes["C02"] = ModeSpec{
 		Cases: func(t string) []Case { return sweepCases(t, sweepOpts{c02: true}) },
-		Rule: "same enumeration as C01; oracle: returned multiset ⊆ stored, every returned row satisfies bloom∧regex by the reference, equality without prefilter, whole-block union rule with prefilter",
+		Rule:  "same enumeration as C01; oracle: returned multiset ⊆ stored, every returned row satisfies bloom∧regex by the reference, equality without prefilter, whole-block union rule with prefilter",
 	}
 	modes["C23"] = ModeSpec{
 		Cases: func(t string) []Case { return sweepCases(t, sweepOpts{c23: true}) },
-		Rule: "every query of the C01 enumeration (all completing without error); per-block accounting rules on Results.Stats against the blocks read back through the public helpers",
+		Rule:  "every query of the C01 enumeration (all completing without error); per-block accounting rules on Results.Stats against the blocks read back through the public helpers",
 	}
 	modes["C24"] = ModeSpec{
 		Cases: func(t string) []Case { return sweepCases(t, sweepOpts{c24: true}) },
-		Rule: "every query of the C01 enumeration with a recording DataStore; expected pruning computed from the stored file/block filters and the public prefilter evaluator",
+		Rule:  "every query of the C01 enumeration with a recording DataStore; expected pruning computed from the stored file/block filters and the public prefilter evaluator",
 	}
 }
 
